@@ -121,6 +121,10 @@ def execute(case, t):
             raise Violation(f"the table scored in the last round is not minus the log-density under the returned model (cluster {k})")
     check_labelling(cost, ri["beta"], last["labels"], last["cost"], "F", t, who="last round")
     ce.classify(tr, t)
+    if any(outs[r] == outs[r - 2] and outs[r] != outs[r - 1] for r in range(2, R)):
+        t.cls("labelling_returns_to_the_one_two_rounds_earlier")
+    if len(last["labels"]) > 4096:
+        t.cls("more_than_4096_stacked_rows")
     if limit == 1:
         t.cls("limit=1")
     if R >= 2:
@@ -128,6 +132,10 @@ def execute(case, t):
 
 
 SUBCHECKS = [
+    SubCheck(name="loop_trace_invariants_long_series", strategy=gen.e2e_long_config, execute=execute,
+             budget={"quick": 15, "thorough": 300}, shards={"quick": 3, "thorough": 16}, modes=E2E_MODES),
+    SubCheck(name="loop_trace_invariants_oscillating_runs", strategy=gen.e2e_oscillating_config, execute=execute,
+             budget={"quick": 160, "thorough": 6000}, shards={"quick": 16, "thorough": 16}, modes=E2E_MODES),
     SubCheck(name="loop_trace_invariants", strategy=lambda: gen.e2e_config(betas=(0.0, 0.5, 2.0, 10.0, 50.0, 400.0)), execute=execute,
              budget={"quick": 160, "thorough": 4000}, shards={"quick": 16, "thorough": 8}, modes=E2E_MODES,
              min_nontrivial_fraction=0.3),
